@@ -28,7 +28,11 @@ Inductive hval :=
 Definition arity_of (h : hval) : Z := match h with HFn a _ _ => a | HCall a => a | HOther => 0 end.
 Definition is_call (h : hval) : bool := match h with HCall _ => true | _ => false end.
 
-Record rflags := mkRF { rf_arity1 : bool ; rf_skip_calls : bool ; rf_capture : bool ; rf_400 : bool }.
+(* rf_fb_key / rf_fb_klong / rf_fb_other: which classes of exception raised by the CALL of the currently resolved
+   definition are swallowed by KGFnWrapper's `except` clause, after which the originally captured function is run
+   (KeyError / KlongException / anything else) *)
+Record rflags := mkRF { rf_arity1 : bool ; rf_skip_calls : bool ; rf_capture : bool ; rf_400 : bool ;
+                        rf_fb_key : bool ; rf_fb_klong : bool ; rf_fb_other : bool }.
 
 Inductive meth := GET | POST.
 Definition meth_eqb (a b : meth) : bool := match a, b with GET, GET | POST, POST => true | _, _ => false end.
@@ -61,26 +65,54 @@ Fixpoint env_get (s : str) (e : env) : option gval :=
   match e with [] => None | (k, v) :: t => if str_eqb s k then Some v else env_get s t end.
 Definition env_set (s : str) (v : gval) (e : env) : env := (s, v) :: e.
 
-(* which code runs for one argument; None = RuntimeError (arity), raised before any code runs *)
-Definition resolve (e : env) (h : hval) : option nat :=
-  match h with
-  | HFn a sym body =>
-      let orig := if Z.eqb a 1 then Some body else None in
-      match sym with
-      | Some s => match env_get s e with
-                  | Some (GFn a' b') => if Z.eqb a' 1 then Some b' else None
-                  | _ => orig
-                  end
-      | None => orig
-      end
-  | _ => None
-  end.
-
 Definition params := list (str * str).
 Inductive body := BText (s : str) | BNum (n : Z) | BUndef.          (* str(result) *)
+(* what running one piece of Klong code on a parameter dictionary does: a result, or an exception of one of the
+   classes KGFnWrapper can tell apart *)
+Inductive outcome := OOk (b : body) | OFailKey | OFailKlong | OFailOther.
 Record request := mkReq { q_meth : meth ; q_path : str ; q_params : params }.
 Record response := mkResp { status : Z ; payload : body }.
 Definition call_log := list (nat * params).
+
+(* the definition the wrapper resolves dynamically: Some (arity, code) | None (no symbol / not a function any more);
+   `e` records the redefinitions since registration *)
+Definition current (e : env) (h : hval) : option (Z * nat) :=
+  match h with
+  | HFn a (Some s) b => match env_get s e with
+                        | Some (GFn a' b') => Some (a', b')        (* redefined since registration *)
+                        | Some GOther => None                      (* now holds something that is not a function *)
+                        | None => Some (a, b)                      (* still bound to the registered function itself *)
+                        end
+  | _ => None
+  end.
+
+Definition swallowed (fl : rflags) (o : outcome) : bool :=
+  match o with OOk _ => false | OFailKey => rf_fb_key fl | OFailKlong => rf_fb_klong fl | OFailOther => rf_fb_other fl end.
+
+(* the originally captured function (self.fn) *)
+Definition run_orig (behav : nat -> params -> outcome) (h : hval) (p : params) : option body * call_log :=
+  match h with
+  | HFn a _ b => if Z.eqb a 1 then
+                   match behav b p with OOk t => (Some t, [(b, p)]) | _ => (None, [(b, p)]) end
+                 else (None, [])                        (* RuntimeError: arity *)
+  | _ => (None, [])
+  end.
+
+(* KGFnWrapper.__call__ : (Some str(result) | None = an exception reaches the route closure, the code that ran) *)
+Definition invoke (fl : rflags) (behav : nat -> params -> outcome) (e : env) (h : hval) (p : params)
+  : option body * call_log :=
+  match current e h with
+  | Some (a', b') =>
+      if Z.eqb a' 1 then
+        match behav b' p with
+        | OOk t => (Some t, [(b', p)])
+        | o => if swallowed fl o
+               then let '(r, l) := run_orig behav h p in (r, (b', p) :: l)     (* `pass`, then the old function *)
+               else (None, [(b', p)])
+        end
+      else (None, [])                                   (* RuntimeError: arity, not a caught class *)
+  | None => run_orig behav h p
+  end.
 
 Definition invalid : str := [73;110;118;97;108;105;100;32;114;101;113;117;101;115;116].   (* "Invalid request" *)
 Definition failure (fl : rflags) : response :=
@@ -89,18 +121,14 @@ Definition failure (fl : rflags) : response :=
 Definition find_route (rs : list route) (m : meth) (p : str) : option route :=
   find (fun r => meth_eqb (r_meth r) m && str_eqb (r_path r) p) rs.
 
-(* one request; `behav code params` = Some (str of the result) | None (the Klong code raised) *)
-Definition serve (fl : rflags) (behav : nat -> params -> option body) (rs : list route) (e : env) (q : request)
+Definition answer (fl : rflags) (r : option body * call_log) : response * call_log :=
+  (match fst r with Some t => mkResp 200 t | None => failure fl end, snd r).
+
+(* one request *)
+Definition serve (fl : rflags) (behav : nat -> params -> outcome) (rs : list route) (e : env) (q : request)
   : response * call_log :=
   match find_route rs (q_meth q) (q_path q) with
-  | Some r =>
-      match resolve e (r_h r) with
-      | Some b => match behav b (q_params q) with
-                  | Some text => (mkResp 200 text, [(b, q_params q)])
-                  | None => (failure fl, [(b, q_params q)])
-                  end
-      | None => (failure fl, [])
-      end
+  | Some r => answer fl (invoke fl behav e (r_h r) (q_params q))
   | None =>                                                   (* aiohttp's answer, assumed *)
       if existsb (fun r => str_eqb (r_path r) (q_path q)) rs
       then (mkResp 405 (BText []), []) else (mkResp 404 (BText []), [])
@@ -211,13 +239,19 @@ Fixpoint of_json (j : jv) : option kv :=
   end.
 
 Definition impl_rflags : rflags :=
-  mkRF Generated.arity_must_be_one Generated.skip_calls Generated.capture_per_iteration Generated.except_returns_400.
-Definition good_rflags : rflags := mkRF true true true true.
+  mkRF Generated.arity_must_be_one Generated.skip_calls Generated.capture_per_iteration Generated.except_returns_400
+       Generated.fallback_on_keyerror Generated.fallback_on_klong_exception Generated.fallback_on_other.
+Definition good_rflags : rflags := mkRF true true true true false false false.
 
-(* ---- the spec of the call log: one dictionary lookup per request ---------------------------------- *)
+(* ---- the spec: the current definition of the handler's symbol (else the function itself) runs ONCE ------ *)
+Definition the_code (e : env) (h : hval) : option nat :=
+  match current e h with
+  | Some (a', b') => if Z.eqb a' 1 then Some b' else None
+  | None => match h with HFn a _ b => if Z.eqb a 1 then Some b else None | _ => None end
+  end.
 Definition spec_entry (fl : rflags) (gets posts : list (str * hval)) (e : env) (q : request) : call_log :=
   match spec_route fl gets posts (q_meth q) (q_path q) with
-  | Some h => match resolve e h with Some b => [(b, q_params q)] | None => [] end
+  | Some h => match the_code e h with Some b => [(b, q_params q)] | None => [] end
   | None => []
   end.
 Fixpoint spec_log (fl : rflags) (gets posts : list (str * hval)) (e : env) (evs : list event) : call_log :=
